@@ -92,3 +92,7 @@ pub async fn spawn(config: KeysetConfig) -> watch::Receiver<Arc<KeySet>> {
     });
     rx
 }
+
+#[cfg(feature = "pendulum_project_ntpd_rs_verif")]
+#[path = "/verif/hooks/ntpd/daemon_nts_key_provider.rs"]
+pub mod vh_daemon_nts_key_provider;
